@@ -187,7 +187,7 @@ def ref_grad(name, params, x, rel=1e-6):
     """gradient of the reference model with respect to the parameters (central differences, Richardson)"""
     g = []
     for k in range(len(params)):
-        h = rel * max(1.0, abs(params[k]))
+        h = rel * (abs(params[k]) or 1.0)
 
         def at(t):
             p = list(params)
@@ -365,7 +365,22 @@ def well_posed_poly(case):
     return r[2] * 1000 >= tot and tot > 0
 
 
-def gen_curve_case(rng, noise_free=False, model=None):
+def scale_params(model, params, k):
+    """parameters of k * f(x; params)"""
+    if model in ("exponential",):
+        idx = [0]
+    elif model == "gaussian":
+        idx = [0]
+    elif model == "u_exponential":
+        idx = [1]
+    elif model == "u_gaussian":
+        idx = [2]
+    else:                       # linear in all parameters
+        idx = range(len(params))
+    return [p * k if i in idx else p for i, p in enumerate(params)]
+
+
+def gen_curve_case(rng, noise_free=False, model=None, yscale=None):
     model = model or (rng.choice(CURVE_MODELS) if rng.random() < 0.6 else rng.choice(sorted(USER_MODELS)))
     if model in ("u_linear", "u_quadratic", "u_polynomial", "u_model4", "u_model5"):
         npar = USER_MODELS[model][1]
@@ -397,11 +412,15 @@ def gen_curve_case(rng, noise_free=False, model=None):
     # no generating parameter at (or next to) zero: MINPACK's forward-difference step is relative to |p|, so scipy's
     # covariance is numerical noise when an optimum is ~1e-9 instead of exactly 0 (a limit of the oracle, not of QExPy)
     truth = [t if abs(t) >= 0.125 else 0.25 for t in truth]
+    # the same physics in other units: y (and with it sigma_y and the parameters that carry the unit of y) times 2^-30
+    # (~1e-9, e.g. nA written in A) or 2^30; nothing in the property depends on the magnitude of the numbers
+    yscale = rng.choice([1.0, 1.0, 1.0, 2.0 ** -30, 2.0 ** 30]) if yscale is None else yscale
+    truth = scale_params(model, truth, yscale)
     scale = max(abs(ref_model(model, truth, x)) for x in xs) or 1.0
     amp = 0.0 if noise_free else scale * rng.choice([0.01, 0.03])
     ys = [ref_model(model, truth, x) + (rng.randrange(-8, 9) / 8.0) * amp for x in xs]
     guess = [t * (1 + rng.choice([-1, 1]) * 0.05) if t else 0.05 for t in truth]
-    case = {"kind": "curve", "model": model, "truth": truth, "guess": guess, "noise_free": noise_free,
+    case = {"kind": "curve", "model": model, "truth": truth, "guess": guess, "noise_free": noise_free, "yscale": yscale,
             "as_lambda": model in USER_MODELS and rng.random() < 0.4,
             "xs": xs, "ys": ys, "xerr": gen_err_pattern(rng, n) if rng.random() < 0.65 else None,
             "yerr": gen_err_pattern(rng, n), "xrange": None, "mode": rng.choice(MODES)}
